@@ -68,6 +68,8 @@ def build_harness(tags="sqlite,verif", race=False, extra_overlay=None, name="har
     overlay = {"Replace": {}}
     for f in sorted(glob.glob(os.path.join(HARNESS, "*.go"))):
         overlay["Replace"][os.path.join(REPO, "internal/zzverif", os.path.basename(f))] = f
+    for f in sorted(glob.glob(os.path.join(HARNESS, "export", "*.go"))):
+        overlay["Replace"][os.path.join(REPO, os.path.basename(f).replace("__", "/"))] = f
     for k, v in (extra_overlay or {}).items():
         overlay["Replace"][os.path.join(REPO, k)] = v
     ov = os.path.join(sc, "overlay_%s.json" % name)
